@@ -614,3 +614,19 @@ Proof.
   destruct (walk_list idx (positions (f_dl f) (f_lines f)) (f_forest f) le) as [le1 rs]. cbn [snd] in H.
   apply Forall_app. split; [exact H|]. apply IH. exact W2.
 Qed.
+
+(* ---------- specifications with an import graph: declaration order = flatten order ---------- *)
+
+(* the headline theorems hold of the files taken in flatten order, whatever the import graph (cross edges, diamonds,
+   back edges): an element re-opened in several files carries its locations in the depth-first preorder of the graph *)
+Theorem decl_count_spec fs g k :
+  map (fun c => (cfile c, cstart c)) (contexts_of k (compile_spec fs g))
+  = map (fun d => (d_file d, start_of (positions (d_dl d) (d_lines d)) (d_first d)))
+        (filter (fun d => d_key d =? k) (declarations (map (fun i => nth (N.to_nat i) fs dfile) (flatten g)))).
+Proof. apply decl_count. Qed.
+
+(* flatten on the graph of the regression the check once missed: main imports a, b; a imports b, c *)
+Example flatten_cross_edge : flatten [[1; 2]; [2; 3]; []; []] = [0; 1; 2; 3].
+Proof. reflexivity. Qed.
+Example flatten_back_edge : flatten [[2; 1]; [0; 3]; [1]; [2]] = [0; 2; 1; 3].
+Proof. reflexivity. Qed.
